@@ -340,6 +340,17 @@ def counter(ctx):
             v = look(a[0][4])
             cs = payload_of(v)
             ok = cs is not None and is_call(cs, "checked_sub") and const_of(cs[2][1]) == 1 and look(cs[2][0])[0] == "field" and look(cs[2][0])[3] == "in_flight_response_count"
+            if not ok:
+                # `match count { 0 => Err(Underflow), n => { count = n - 1; Ok(()) } }`: the value stored is count - 1 under the path's tests
+                from ..lin import Lin, State
+                from ..panics import Tr
+                st_ = State()
+                tr_ = Tr(facts, fe, st_)
+                for ev in lf.events:
+                    if ev[0] == "cond":
+                        tr_.assume_cond(ev[3], ev[4])
+                cnt = ("field", ("deref", ("arg", 1)), srv.CCT, "in_flight_response_count")
+                ok = st_.entails_eq(tr_.lin(a[0][4]) - tr_.lin(cnt) + Lin.const(1)) and st_.entails_le(Lin.const(1) - tr_.lin(cnt))
         ctx.ob("R07.6", "enqueue|counter-minus-one", ok, "every Ok path of enqueue_response decrements in_flight by exactly 1", fe.loc(lf.bb))
     ctx.ob("R07.6", "enqueue|floor", m >= 1, "%d Ok path(s) of enqueue_response inspected (floor 1)" % m)
     for w in field_writers(facts, srv.CCT, "in_flight_response_count"):
@@ -384,9 +395,21 @@ def counted_by_length_difference(facts, lf, y, ry):
     fr = facts.fns[CC + "read"]
     for k in ry["param"]:
         for t in param_consumers(fr, k):
-            if t is None or last_seg(t["callee"].get("path") or "") not in ("push", "len"):
+            seg_ = None if t is None else last_seg(t["callee"].get("path") or "")
+            if seg_ == "truncate" and _restores(facts, fr, k):
+                continue
+            if seg_ not in ("push", "len"):
                 return False
     return True
+
+
+def _restores(facts, fr, k):
+    class _C:
+        pass
+    c = _C()
+    c.facts = facts
+    c.touched = lambda *a, **kw: None
+    return srv.truncate_restores_entry(c, fr, {k})
 
 
 def same_vec(a, b):
